@@ -197,6 +197,9 @@ class Codec:
             self.order_events.append(("dict-order", getattr(it, "name", "dict")))
             return self.dict_items(it, "keys")
         if isinstance(it, SortedKeys):
+            # the entries leave in key order: the reader can only rebuild the dict in that order, so the
+            # insertion order of the original is lost (an obligation failure where that order is observable)
+            self.order_events.append(("sorted-keys", it.d))
             return self.dict_items(it.d, "keys")
         if isinstance(it, SIterable) and it.what == "enumerate":
             inner = self.as_collection(it.payload[0], frame)
